@@ -342,7 +342,7 @@ def judge(vendor, rbk, top, rules, old, new, tier, report, stats=None):
     try:
         from annet import api
         with env.rulebook_override(lambda _hw, _real: rbk):
-            _rb, _d, fpre, _pt = api._read_old_new_diff_patch(env.to_odict(old), env.to_odict(new), env.hw(vendor), False)
+            _rb, _d, fpre, _pt = env.call_private(api, "_read_old_new_diff_patch", env.to_odict(old), env.to_odict(new), env.hw(vendor), False)
         lines = list(gen_pre_as_diff(fpre, False, "  ", True))
         got = read_pre_diff(lines, "  ")
         if multiset(got) != multiset(want):
